@@ -101,6 +101,157 @@ theorem bridge_ed_ladder_diff : stmt_ed_ladder_diff := by
   rw [h2]
   exact Curve.ladder_diff_coords_ne_zero Lc hL Lc_odd P hP hne a ha hlt
 
+/-! ## Part D: the vocabulary relating integer coordinate tuples to curve points (`BridgeVocab.lean`) -/
+
+section Vocab
+variable [Fact (Nat.Prime Q)]
+
+/-- inside its domain `edPt` is `pt` -/
+theorem edPt_val {X Y Z : ℤ} (h : OnCurve (pt X Y Z)) : (edPt X Y Z).1 = pt X Y Z := by
+  have e : edPt X Y Z = ⟨pt X Y Z, h⟩ := dif_pos h
+  rw [e]
+
+theorem edPt_of_valid3 {X Y Z : ℤ} (h : Valid3 X Y Z) : (edPt X Y Z).1 = pt X Y Z :=
+  edPt_val (pt_oncurve h)
+
+/-- inside its domain `edAff` is the pair of residues -/
+theorem edAff_val {x y : ℤ} (h : OnCurve (((x : ℤ) : F), ((y : ℤ) : F))) :
+    (edAff x y).1 = (((x : ℤ) : F), ((y : ℤ) : F)) := by
+  have e : edAff x y = ⟨(((x : ℤ) : F), ((y : ℤ) : F)), h⟩ := dif_pos h
+  rw [e]
+
+/-- the generated mirror of the module's `isoncurve` (integers, unreduced `d`) is the curve equation in `F` -/
+theorem isoncurve_iff (x y : ℤ) : spake_isoncurve x y ↔ OnCurve (((x : ℤ) : F), ((y : ℤ) : F)) := by
+  simp only [spake_isoncurve, OnCurve, dF]
+  rw [xr_emod_zero_iff]
+  push_cast
+  constructor
+  · intro h; linear_combination h
+  · intro h; linear_combination h
+
+/-- the integer printed for a coordinate casts back to the coordinate -/
+theorem val_int_cast (u : F) : (((u.val : ℕ) : ℤ) : F) = u := by
+  rw [Int.cast_natCast, ZMod.natCast_zmod_val]
+
+end Vocab
+
+theorem bridge_voc_B_def : stmt_voc_B_def := by
+  unfold stmt_voc_B_def
+  intro hQ hL
+  rfl
+
+theorem bridge_voc_O_coords : stmt_voc_O_coords := by
+  unfold stmt_voc_O_coords
+  intro hQ hL
+  have h1 : ((0 : Curve)).1.1 = 0 := rfl
+  have h2 : ((0 : Curve)).1.2 = 1 := rfl
+  rw [h1, h2, ZMod.val_zero, ZMod.val_one]
+  exact ⟨rfl, rfl⟩
+
+theorem bridge_voc_aff_O : stmt_voc_aff_O := by
+  unfold stmt_voc_aff_O
+  intro hQ hL
+  have hon : OnCurve ((((0 : ℤ)) : F), (((1 : ℤ)) : F)) := by
+    have := eO_onCurve
+    simpa [eO] using this
+  apply Curve.ext
+  rw [edAff_val hon, Curve.zero_val]
+  simp [eO]
+
+theorem bridge_voc_coords_range : stmt_voc_coords_range := by
+  unfold stmt_voc_coords_range
+  intro hQ hL P
+  refine ⟨Int.natCast_nonneg _, ?_, Int.natCast_nonneg _, ?_⟩
+  · exact_mod_cast ZMod.val_lt P.1.1
+  · exact_mod_cast ZMod.val_lt P.1.2
+
+theorem bridge_voc_point_aff : stmt_voc_point_aff := by
+  unfold stmt_voc_point_aff
+  intro hQ hL P
+  have hon : OnCurve ((((P.1.1.val : ℕ) : ℤ) : F), (((P.1.2.val : ℕ) : ℤ) : F)) := by
+    rw [val_int_cast, val_int_cast]; exact P.2
+  apply Curve.ext
+  rw [edAff_val hon, val_int_cast, val_int_cast]
+
+theorem bridge_voc_point_ext : stmt_voc_point_ext := by
+  unfold stmt_voc_point_ext
+  rintro hQ hL P R ⟨hx, hy⟩
+  exact Curve.ext (Prod.ext (val_int_inj hx) (val_int_inj hy))
+
+theorem bridge_voc_point_on_curve : stmt_voc_point_on_curve := by
+  unfold stmt_voc_point_on_curve
+  intro hQ hL P
+  rw [isoncurve_iff, val_int_cast, val_int_cast]
+  exact P.2
+
+theorem bridge_voc_valid_reduced : stmt_voc_valid_reduced := by
+  unfold stmt_voc_valid_reduced
+  intro hQ hL a b c e h
+  have h3 := h.toValid3
+  obtain ⟨ha0, ha1, hb0, hb1, hc0, hc1, he0, he1, hcne, -, -⟩ := h
+  have hcpos : c > 0 := by
+    rcases lt_or_eq_of_le hc0 with hlt | heq
+    · exact hlt
+    · exfalso; apply hcne; rw [← heq]; simp
+  exact ⟨ha0, ha1, hb0, hb1, hcpos, hc1, he0, he1, h3⟩
+
+/-! ## Part E: the contracts of the coordinate-level functions (`EdwardsProofs.lean`) -/
+
+theorem cbridge_add_elements : cstmt_add_elements := by
+  unfold cstmt_add_elements
+  rintro hQ X1 Y1 Z1 T1 X2 Y2 Z2 T2 ⟨h1, h2⟩
+  intro r
+  obtain ⟨hv, hpt⟩ := add_elements_correct h1 h2
+  refine ⟨hv, Curve.ext ?_⟩
+  rw [Curve.add_val, edPt_of_valid3 h1.toValid3, edPt_of_valid3 h2.toValid3]
+  exact (edPt_of_valid3 hv.toValid3).trans hpt
+
+theorem cbridge_double_element : cstmt_double_element := by
+  unfold cstmt_double_element
+  intro hQ X1 Y1 Z1 T1 h1 r
+  obtain ⟨hv, hpt⟩ := double_element_correct h1 T1
+  refine ⟨hv, Curve.ext ?_⟩
+  rw [Curve.add_val, edPt_of_valid3 h1]
+  exact (edPt_of_valid3 hv.toValid3).trans hpt
+
+theorem cbridge__add_elements_nonunfied : cstmt__add_elements_nonunfied := by
+  unfold cstmt__add_elements_nonunfied
+  rintro hQ X1 Y1 Z1 T1 X2 Y2 Z2 T2 ⟨h1, h2⟩ ⟨hn1, hn2⟩
+  intro r
+  rw [Curve.sub_val, edPt_of_valid3 h1.toValid3, edPt_of_valid3 h2.toValid3] at hn1 hn2
+  obtain ⟨hv, hpt⟩ := nonunified_correct h1 h2 hn1 hn2
+  refine ⟨hv, Curve.ext ?_⟩
+  rw [Curve.add_val, edPt_of_valid3 h1.toValid3, edPt_of_valid3 h2.toValid3]
+  exact (edPt_of_valid3 hv.toValid3).trans hpt
+
+theorem cbridge_xform_affine_to_extended : cstmt_xform_affine_to_extended := by
+  unfold cstmt_xform_affine_to_extended
+  intro hQ x y h r
+  obtain ⟨hv, hpt⟩ := xform_affine_correct h
+  refine ⟨hv, Curve.ext ?_⟩
+  rw [edAff_val ((isoncurve_iff x y).mp h)]
+  exact (edPt_of_valid3 hv.toValid3).trans hpt
+
+theorem cbridge_xform_extended_to_affine : cstmt_xform_extended_to_affine := by
+  unfold cstmt_xform_extended_to_affine
+  intro hQ X Y Z T h r
+  obtain ⟨hx0, hx1, hy0, hy1, hpt⟩ := xform_extended_correct h
+  have hval : (edPt X Y Z).1 = (((r.1 : ℤ) : F), ((r.2 : ℤ) : F)) :=
+    (edPt_of_valid3 h.toValid3).trans hpt.symm
+  rw [hval]
+  exact ⟨(val_int_of_range hx0 hx1).symm, (val_int_of_range hy0 hy1).symm⟩
+
+theorem cbridge_is_extended_zero : cstmt_is_extended_zero := by
+  unfold cstmt_is_extended_zero
+  intro hQ X Y Z T h r
+  have hval := edPt_of_valid3 h.toValid3
+  have hiff : (edPt X Y Z = (0 : Curve)) ↔ pt X Y Z = eO := by
+    constructor
+    · intro h0; rw [← hval, h0]; rfl
+    · intro h0; exact Curve.ext (hval.trans h0)
+  rw [hiff]
+  exact is_extended_zero_correct h
+
 end Bridge
 
 /-! # Axiom audit -/
@@ -108,3 +259,17 @@ end Bridge
 #print axioms Bridge.bridge_ed_ladder_diff
 #print axioms Bridge.bridge_ed_same_y
 #print axioms Bridge.bridge_ed_xrecover_complete
+#print axioms Bridge.bridge_voc_B_def
+#print axioms Bridge.bridge_voc_O_coords
+#print axioms Bridge.bridge_voc_aff_O
+#print axioms Bridge.bridge_voc_coords_range
+#print axioms Bridge.bridge_voc_point_aff
+#print axioms Bridge.bridge_voc_point_ext
+#print axioms Bridge.bridge_voc_point_on_curve
+#print axioms Bridge.bridge_voc_valid_reduced
+#print axioms Bridge.cbridge_add_elements
+#print axioms Bridge.cbridge_double_element
+#print axioms Bridge.cbridge__add_elements_nonunfied
+#print axioms Bridge.cbridge_xform_affine_to_extended
+#print axioms Bridge.cbridge_xform_extended_to_affine
+#print axioms Bridge.cbridge_is_extended_zero
